@@ -99,6 +99,13 @@ def parse_rule(ctx) -> None:
     ctx.check((rev != neg) and not inverted, 'C19.parse', fn, 'descending quality with ties kept in header order: sorted(reverse=True) or a negated key, never reversed()/[::-1]', s, key='parse:stable')
     ktext = core.src(key) if key is not None else ''
     ctx.check("get('q', 1)" in ktext and 'float(' in ktext, 'C19.parse', fn, 'quality is float(q) with default 1', s, key='parse:q-default')
+    # ... and nothing but the quality: a secondary sort key (a tuple, specificity, length ...) re-orders what the client listed
+    # with equal weight - ties stay in header order
+    body = key.body if isinstance(key, ast.Lambda) else None
+    if isinstance(body, ast.UnaryOp) and isinstance(body.op, ast.USub):
+        body = body.operand
+    only_q = isinstance(body, ast.Call) and isinstance(body.func, ast.Name) and body.func.id == 'float' and len(body.args) == 1 and "get('q', 1)" in core.src(body.args[0])
+    ctx.check(only_q, 'C19.parse', fn, f'the sort key is the quality alone (`{ktext[:70]}`)', s, key='parse:key-only-q')
     ctx.check("if k != 'q'" in text, 'C19.parse', fn, 'q is not an option of the parsed encoding', fn.node, key='parse:q-removed')
     ctx.check('cgi.parse_header(h) for h in _CSV.split(value)' in text, 'C19.parse', fn, 'one media range per comma separated item', fn.node, key='parse:split')
     new = prog.func(f'{CODEC}:Encoding.__new__')
@@ -289,3 +296,5 @@ def run(ctx) -> None:
     match_rule(ctx)
     tables(ctx)
     shared.argname_scope(ctx, ('forml.io.layout', 'forml.application._descriptor'), floor=2)
+    # a request crosses process boundaries pickled: what comes out has the accept list it went in with
+    ctx.floor('R-PICKLE.newargs', shared.r_newargs(ctx, [c for c in ctx.prog.classes.values() if c.module.name.startswith(('forml.io.layout', 'forml.application'))]), 1)
